@@ -17,6 +17,7 @@ import (
 	"math/rand/v2"
 	"net"
 	"strings"
+	"sync"
 	"time"
 
 	ztls "github.com/zmap/zcrypto/tls"
@@ -30,7 +31,8 @@ func init() {
 		Rule: "generated ClientFingerprintConfigurations: HandshakeVersion 0x0301..0x0303; ClientRandom 32 bytes / nil / other length (fresh), with and without InsertTimestamp; SessionID 0-32 bytes; 1-160 suites from the implemented table in random order " +
 			"(repeats allowed, so that the vector length crosses 255 bytes); compression [0]; a random ordered subset of the built-in extension types with random contents (one host name, also Autopopulate from Config.ServerName; ALPN 1-4 protocols of 1-255 bytes; " +
 			"curves from the default preference set; point format [0]; ticket empty/bytes; hash/signature pairs) interleaved with NullExtensions; non-trivial = the configuration was accepted and a ClientHello was captured and compared " +
-			"(distinct by hash of the captured message with the fresh random bytes masked); rejected configurations (error before any write) are counted",
+			"(distinct by hash of the captured message with the fresh random bytes masked); rejected configurations (error before any write) are counted; " +
+			"Marshal() outputs are held uncopied across the rest of the case and the whole next case before being compared; a second leg runs two clients with different fingerprints concurrently, each must send its own hello",
 		MinNontrivial:         5000,
 		MinNontrivialThorough: 150000,
 		Assumptions: []string{
@@ -318,7 +320,7 @@ func runC29(c *core.Ctx) {
 	}
 	n := c.PerShard(c.Pick(16000, 400000))
 	r := c.Rng
-	for i := 0; i < n; i++ {
+	gen := func(r *rand.Rand) *fpConfig {
 		f := genFP(r, suites, curves, pairs)
 		if r.IntN(25) == 0 { // occasionally an ECDSA pair (currently refused by CheckImplemented: counted as rejected)
 			for j := range f.exts {
@@ -327,8 +329,71 @@ func runC29(c *core.Ctx) {
 				}
 			}
 		}
-		c29Case(c, f, fmt.Sprintf("fp/%d/%d", c.Shard, i), uint64(i))
+		return f
 	}
+	// sequential cases: Marshal() outputs are held (as returned, hashed) across the rest of the case and the
+	// whole next case before they are compared with the reference encoder
+	var held []heldExt
+	for i := 0; i < n; i++ {
+		c29Case(c, gen(r), fmt.Sprintf("fp/%d/%d", c.Shard, i), uint64(i), &held)
+	}
+	flushHeldExts(c, &held, 0)
+	// two clients with different fingerprints at the same time: each must send its own hello
+	pairsN := c.PerShard(c.Pick(3200, 80000))
+	r1, r2 := c.SubRng("pair/a"), c.SubRng("pair/b")
+	for i := 0; i < pairsN; i++ {
+		fa, fb := gen(r1), gen(r2)
+		var wg sync.WaitGroup
+		wg.Add(2)
+		go func() {
+			defer wg.Done()
+			c29Case(c, fa, fmt.Sprintf("fp-pair/%d/%d/a", c.Shard, i), uint64(i)<<1|1<<40, nil)
+		}()
+		go func() {
+			defer wg.Done()
+			c29Case(c, fb, fmt.Sprintf("fp-pair/%d/%d/b", c.Shard, i), uint64(i)<<1|1|1<<40, nil)
+		}()
+		wg.Wait()
+	}
+	c.Count("concurrent_client_pairs", pairsN)
+}
+
+// heldExt is one extension encoding kept exactly as Marshal() returned it.
+type heldExt struct {
+	ext    fpExt
+	enc    []byte
+	n      int
+	sum    uint64
+	want   []byte
+	caseID string
+	input  map[string]any
+	gen    int // case counter at the time of the Marshal call
+}
+
+var heldGen int
+
+// flushHeldExts compares the held encodings made before generation `before` (0 = all).
+func flushHeldExts(c *core.Ctx, held *[]heldExt, before int) {
+	keep := (*held)[:0]
+	for _, h := range *held {
+		if before != 0 && h.gen >= before {
+			keep = append(keep, h)
+			continue
+		}
+		c.Count("extension_marshal_checked", 1)
+		in := map[string]any{"extension": h.ext.String(), "marshal_now": hx(h.enc), "expected": hx(h.want)}
+		for k, v := range h.input {
+			in[k] = v
+		}
+		if len(h.enc) != h.n || sum64(h.enc) != h.sum {
+			c.Violation("fp:aliasing:extension:"+h.ext.kind+":marshal-output-modified-by-later-marshal", fmt.Sprintf("the slice %s.Marshal() returned changed while later extensions / configurations were marshalled; now %x, RFC encoding %x", h.ext, h.enc, h.want), h.caseID, in)
+			continue
+		}
+		if !bytes.Equal(h.enc, h.want) {
+			c.Violation("fp:extension:"+h.ext.kind+":marshal", fmt.Sprintf("%s.Marshal() = %x, RFC encoding %x", h.ext, h.enc, h.want), h.caseID, in)
+		}
+	}
+	*held = keep
 }
 
 // firstFlight runs the client against the recording stub and returns the bytes it wrote.
@@ -359,7 +424,7 @@ func firstFlight(cfg *ztls.Config) (wire []byte, herr error, pi *core.PanicInfo)
 	return
 }
 
-func c29Case(c *core.Ctx, f *fpConfig, caseID string, salt uint64) {
+func c29Case(c *core.Ctx, f *fpConfig, caseID string, salt uint64, held *[]heldExt) {
 	c.Eval(1)
 	input := f.describe()
 	fp := &ztls.ClientFingerprintConfiguration{HandshakeVersion: f.version, InsertTimestamp: f.timestamp, CipherSuites: append([]uint16(nil), f.suites...), CompressionMethods: []uint8{0}}
@@ -377,6 +442,7 @@ func c29Case(c *core.Ctx, f *fpConfig, caseID string, salt uint64) {
 		c.Count("configs_with_client_session_cache", 1)
 	}
 	// the extension encoders on their own (exported Marshal methods), before the client may rewrite the list
+	var mine []heldExt
 	for i, e := range f.exts {
 		host := e.host
 		if e.kind == "sni" && host == "" {
@@ -387,11 +453,19 @@ func c29Case(c *core.Ctx, f *fpConfig, caseID string, salt uint64) {
 			c.Violation("fp:extension:"+e.kind+":marshal-"+panicKey(mpi), mpi.Value, caseID, input)
 			continue
 		}
-		c.Count("extension_marshal_checked", 1)
-		if want := e.encode(host); !bytes.Equal(enc, want) {
-			input["extension"], input["marshal"], input["expected"] = e.String(), hx(enc), hx(want)
-			c.Violation("fp:extension:"+e.kind+":marshal", fmt.Sprintf("%s.Marshal() = %x, RFC encoding %x", e, enc, want), caseID, input)
+		h := heldExt{ext: e, enc: enc, n: len(enc), sum: sum64(enc), want: e.encode(host), caseID: caseID, input: map[string]any{"Extensions": input["Extensions"]}}
+		if held != nil {
+			h.gen = heldGen + 1
+			*held = append(*held, h)
+		} else {
+			mine = append(mine, h)
 		}
+	}
+	if held != nil {
+		heldGen++
+		flushHeldExts(c, held, heldGen) // everything marshalled before this case, now that this case's extensions were marshalled too
+	} else {
+		defer func() { flushHeldExts(c, &mine, 0) }() // concurrent pair: judged after this client's whole handshake
 	}
 	wire, herr, pi := firstFlight(cfg)
 	input["wire"] = hx(wire)
